@@ -209,10 +209,15 @@ func (or *ObjectRegistry) applyConfig(config map[string]string) {
 			continue
 		}
 
-		if prevEntity != nil {
-			updated[name] = entity
-		} else {
+		if prevEntity == nil {
 			created[name] = entity
+		} else if prevEntity.Spec().Kind() != entity.Spec().Kind() {
+			// the kind changed, so this is another object with the same
+			// name: close the old one and initialize the new one.
+			deleted[name] = prevEntity
+			created[name] = entity
+		} else {
+			updated[name] = entity
 		}
 		or.entities[name] = entity
 	}
